@@ -42,7 +42,7 @@ CaseRecord(d) ==
         feat |-> MsgFeature(body),
         msgid |-> e.msgid, msgid_plural |-> e.msgid_plural, var |-> e.var,
         tr |-> [l \in 1..Len(LocSeq) |->
-                  [loc |-> LocSeq[l], forms |-> POPluralForms(LocSeq[l]),
+                  [loc |-> LocSeq[l], names |-> POCatalogueLocales(LocSeq[l]), forms |-> POPluralForms(LocSeq[l]),
                    idt |-> POTranslate("id", e, LocSeq[l]), rev |-> POTranslate("rev", e, LocSeq[l])]],
         exp |-> [i \in 1..Len(ns) |->
                   LET env == POEnv(ns[i]) IN
